@@ -1,4 +1,5 @@
 """C05 - names in expressions resolve lexically to the innermost enclosing scope."""
+import re
 import sir
 from exprmodel import ExprModel, find_expression_matches, arm_table, bound_fields
 
@@ -791,6 +792,87 @@ def wave8_rules(ctx):
     return obs
 
 
+def wave9_rules(ctx):
+    """obligations added after the ninth wave of seeded changes"""
+    import absint as ai
+    import guards as G
+    ob = ctx.ob
+    tc = ctx.tc
+    obs = []
+    ep = [f for f in tc.fns if f.base == "Element" and f.name == "parse" and f.body]
+    if ep:
+        f = ep[0]
+        where = ctx.where(f)
+        # (1) `slot:` values of an element that also carries wx:if / wx:elif / wx:else / wx:for are dropped (the element is wrapped
+        #     in a virtual node, its slot scope would capture the wrapper's variables): decided for every classification
+        blocks = [n for n in sir.walk(f.node, into_items=True) if n.get("k") == "if" and any(x.get("k") == "mcall" and x["m"] == "drain" and "slot_value_refs" in sir.expr_str(x["recv"]) for x in sir.walk(n["then"]))]
+        if not blocks:
+            obs.append(ob("C05.visit/slot-refs-on-wrapped", None, where, "the place where slot references of wrapped elements are dropped is not in a form this rule reads"))
+        else:
+            blk = blocks[0]   # the outermost `if` containing the drain
+            F = ai.FREE
+
+            def hooks(it, e, st):
+                if e.get("k") == "mcall" and e["m"] == "drain":
+                    return [(F, st.event(("drain",)))]
+                if e.get("k") == "mcall" and e["m"].startswith("add_warning"):
+                    return [(ai.UNIT, st)]
+                return None
+            wrong, und = [], False
+            for ic in ("None", "If", "Elif", "Else"):
+                for fl in ("None", "For"):
+                    env = {"if_condition": ("E", ic, () if ic == "None" else (F, F)), "for_list": ("E", fl, () if fl == "None" else (("list", F),)), "slot_value_refs": ("Some", F), "ps": F}
+                    try:
+                        outs = ai.Interp(hooks=hooks, idx=tc).run(blk, env)
+                    except ai.TooManyPaths:
+                        outs = []
+                    if not outs or any(o.tainted for o in outs):
+                        und = True
+                        continue
+                    drained = set(("drain",) in o.events for o in outs)
+                    want = not (ic == "None" and fl == "None")
+                    if drained != {want}:
+                        wrong.append("(%s, %s): %s" % (ic, fl, "kept" if want else "dropped"))
+            if und and not wrong:
+                obs.append(ob("C05.visit/slot-refs-on-wrapped", None, where, "the decision depends on a construct outside the interpreted fragment"))
+            else:
+                obs.append(ob("C05.visit/slot-refs-on-wrapped", not wrong, where, "slot references are kept exactly for elements without wx:if/elif/else and wx:for (8 combinations)" if not wrong else "wrong for %s" % wrong,
+                              witness=None if not wrong else "<a wx:for=..><b slot:item wx:if=..>{{item}}</b></a>: `item` is captured by the slot scope"))
+        # (2) duplicates among `slot:` value names are found by equality of the names
+        bad = []
+        for n in sir.walk(f.node, into_items=True):
+            if n.get("k") == "mcall" and n["m"] in ("find", "any", "position") and n["args"] and n["args"][0].get("k") == "closure":
+                body = n["args"][0]["body"]
+                if "slot_value_refs" in sir.expr_str(n["recv"]) or "slot_value_refs" in sir.expr_str(sir.strip_ref(n["recv"]).get("recv", {})):
+                    if any(x.get("k") == "mcall" and re.search(r"ignore|lower|upper", x["m"]) for x in sir.walk(body)):
+                        bad.append(sir.expr_str(n)[:60])
+        obs.append(ob("C05.names/slot-duplicate-exact", not bad, where, "duplicate slot value names are compared for equality" if not bad else "slot value names are compared loosely: %s" % bad[:1],
+                      witness=None if not bad else "slot:a plus slot:A: the second alias is dropped and falls through to an outer scope"))
+    # (3) the analysis pushes one scope for the item and one for the index of every wx:for, whatever their names
+    ib = [f for f in tc.fns if f.base == "Element" and f.name == "init_scopes_and_binding_map_keys" and f.body]
+    if ib:
+        f = ib[0]
+        gs = G.guards_of(f.body)
+        conds = []
+        n_ = 0
+        for n in sir.walk(f.body):
+            if is_mcall(n, "push", "scopes") and ("item_name" in sir.expr_str(n) or "index_name" in sir.expr_str(n)):
+                n_ += 1
+                conds += [sir.expr_str(subj)[:50] for kind, subj, pol in gs.get(id(n), []) if kind == "cond"]
+        if n_:
+            obs.append(ob("C05.mirror/analysis/for-unconditional", not conds, ctx.where(f), "item and index scopes are pushed unconditionally (%d pushes)" % n_ if not conds else "a wx:for scope is pushed only under %s: the generator still pushes two" % conds[:1],
+                          witness=None if not conds else "wx:for-item=\"x\" wx:for-index=\"x\": every scope below is shifted by one"))
+    # (4) nested writers continue the identifier numbering of their parent (shared with C02.ident)
+    from rules.c02 import ident_rule, holes_rule
+    _o, sites = holes_rule(ctx)
+    for x in ident_rule(ctx, sites):
+        if x["key"].endswith("ident/nested-align"):
+            x = dict(x)
+            x["key"] = "C05.names/nested-align"
+            obs.append(x)
+    return obs
+
+
 def run(ctx):
     obs, _model, _its = check_iterators(ctx)
     obs += check_mirror(ctx)
@@ -798,6 +880,7 @@ def run(ctx):
     obs += dedup_key_rule(ctx)
     obs += slot_key_rule(ctx)
     obs += wave8_rules(ctx)
+    obs += wave9_rules(ctx)
     n_children = sum(1 for o in obs if o["key"].startswith("C05.children/"))
     if n_children < 88:
         obs.append(ctx.ob("C05.floor/children", False, "parse/expr.rs", "only %d variant x iterator obligations (floor 88 = 44 variants x 2 iterators)" % n_children))
